@@ -58,6 +58,8 @@ def _run_chunk(modname, cases):
     for case in cases:
         faulthandler.dump_traceback_later(CASE_WALL_S, exit=True)
         t0 = time.time()
+        from . import sched as _sched
+        del _sched.FINISHED[:]
         try:
             r = mod.run_case(case)
         except BaseException as e:  # pylint: disable=broad-except
@@ -67,6 +69,7 @@ def _run_chunk(modname, cases):
             faulthandler.cancel_dump_traceback_later()
         r['case'] = case
         r['wall'] = time.time() - t0
+        r['sims'] = list(_sched.FINISHED)
         out.append(r)
     return out
 
@@ -94,9 +97,20 @@ class Agg(object):
         self.steps = 0
         self.states = set()
         self.extra_sets = {}
+        self.interleavings = set()
+        self.sims = 0
+        self.decisions = 0
+        self.sim_steps = 0
+        self.sim_vsecs = 0.0
 
     def add(self, r):
         self.evaluations += 1
+        for sig, steps, vsecs, ndec in r.get('sims', ()):
+            self.interleavings.add(sig)
+            self.sims += 1
+            self.decisions += ndec
+            self.sim_steps += steps
+            self.sim_vsecs += vsecs
         if r.get('harness_error'):
             self.harness_errors.append((r['case'], r['harness_error'], r.get('tb', '')))
             return
@@ -395,17 +409,30 @@ def write_evidence(prop, mod, tier, seed, agg, complete, wall, unknown, known_se
         'exhaustive': bool(getattr(mod, 'EXHAUSTIVE', {}).get(tier, False) and complete),
         'generator_completed_within_budget': complete,
         'runs_per_hour': int(agg.evaluations / wall * 3600) if wall > 0 else 0,
-        'scheduler_steps': agg.steps,
-        'virtual_seconds': round(agg.vsecs, 1),
+        'simulated_runs': agg.sims,
+        'simulated_runs_per_hour': int(agg.sims / wall * 3600) if wall > 0 else 0,
+        'distinct_interleavings': len(agg.interleavings),
+        'distinct_interleavings_measure': 'SHA-1 of the sequence of (task role, seam kind | actor) '
+                                          'scheduling steps of one simulator run',
+        'scheduler_steps': agg.sim_steps,
+        'recorded_decisions': agg.decisions,
+        'virtual_seconds': round(agg.sim_vsecs, 1),
+        'seed_derivation': 'every simulator is seeded with "<workload>/<case seed>..." where the '
+                           'case seed derives from VERIF_SEED; one case = one exactly repeatable '
+                           'execution',
         'faults_fired': faults,
         'probes': probes,
         'counters': other,
-        'abstract_states': len(agg.states),
         'real_components': REAL + list(getattr(mod, 'REAL_EXTRA', [])),
         'stub_components': STUB + list(getattr(mod, 'STUB_EXTRA', [])),
         'known_findings_seen': known_seen,
         'workers': jobs,
     }
+    if agg.states:
+        cov['abstract_provider_states'] = len(agg.states)
+        cov['abstract_provider_states_measure'] = ('(protocol state, ARTIM running, receive '
+                                                   'buffer empty, decoder mid-message, socket '
+                                                   'open) observed at quiescent points')
     for k, s in agg.extra_sets.items():
         cov[k] = len(s)
         cov[k + '_list'] = sorted(s)[:400]
